@@ -163,10 +163,15 @@ type aliasTracker struct {
 	entries map[*pending.PreConfirmed]uint64 // entry -> block number
 	updates map[*core.StateUpdate]bool       // published StateUpdate objects
 	shared  int                              // entries that re-publish a whole, unchanged StateUpdate object (no-change)
+	// NewClasses map objects of published entries (ClassAlias.lean); keep holds the maps themselves so
+	// that an address is never reused by a later allocation while it is in classMaps
+	classMaps map[uintptr]string
+	keep      []any
 }
 
 func newAliasTracker() *aliasTracker {
-	return &aliasTracker{maps: map[uintptr]string{}, entries: map[*pending.PreConfirmed]uint64{}, updates: map[*core.StateUpdate]bool{}}
+	return &aliasTracker{maps: map[uintptr]string{}, entries: map[*pending.PreConfirmed]uint64{}, updates: map[*core.StateUpdate]bool{},
+		classMaps: map[uintptr]string{}}
 }
 
 // publish checks a newly published entry and records it. Returns a description of the first
@@ -209,6 +214,47 @@ func (t *aliasTracker) publish(e *pending.PreConfirmed) (sig, what string) {
 	}
 	t.entries[e] = e.Block.Number
 	return "", ""
+}
+
+// classOrigin says which OBJECT the NewClasses map of a newly published entry is, relative to the map the
+// caller passed to ApplyUpdate and to the maps of the entries published before: nil | caller | shared |
+// fresh (what ClassAlias.lean `origin` predicts), and records it as published.
+func (t *aliasTracker) classOrigin(e *pending.PreConfirmed, caller map[felt.Felt]core.ClassDefinition) string {
+	p := mapPtr(e.NewClasses)
+	tok := "fresh"
+	switch {
+	case p == 0:
+		return "nil"
+	case p == mapPtr(caller):
+		tok = "caller"
+	case t.classMaps[p] != "":
+		tok = "shared"
+	}
+	if t.classMaps[p] == "" {
+		t.classMaps[p] = fmt.Sprintf("NewClasses of block %d (%s)", e.Block.Number, e.BlockIdentifier)
+		t.keep = append(t.keep, e.NewClasses)
+	}
+	return tok
+}
+
+// stateClassOrigin: the class table of a state built over a view (pending.State.newClasses, read by
+// reflection) must be nil or a map of its own — never a map object of a published entry (the readers'
+// loop writes INTO its accumulator).
+func (t *aliasTracker) stateClassOrigin(ps *pending.State) (tok, owner string) {
+	f, err := unexportedField(ps, "newClasses")
+	if err != nil {
+		return "no-field", ""
+	}
+	if f.Kind() != reflect.Map {
+		return "no-field", ""
+	}
+	if f.IsNil() {
+		return "nil", ""
+	}
+	if o, ok := t.classMaps[f.Pointer()]; ok {
+		return "published", o
+	}
+	return "fresh", ""
 }
 
 // stateDiffShares checks the merged diff of a state built over a view: none of its maps may be a
